@@ -8,7 +8,7 @@ from . import c01, campaign, engine, fmt, gen, segs, stages
 
 LEVEL = 'proof'
 PID = 'C13'
-WEIGHTS = {'rect': 0.25, 'oct': 0.3, 'share': 0.2, 'lat': 0.1, 'gp': 0.1, 'degen': 0.05}
+WEIGHTS = {'rect': 0.25, 'oct': 0.3, 'share': 0.2, 'lat': 0.1, 'gp': 0.1, 'degen': 0.05, 'boxes': 0.05, 'straddle': 0.08, 'fan': 0.03}
 EXACT = ('rect', 'oct', 'share')
 
 
@@ -145,11 +145,21 @@ def run(rep, tier, seed):
     c01.proof_part(rep, PID, tier)
     npairs = 150 if tier == 'quick' else 4000
     cases = [c for c in campaign.make_cases(rng, npairs, WEIGHTS) if c.n_edges() <= 80]
+    # the same operands at very small and very large scales (powers of two: every coordinate stays exact); edges far shorter
+    # than the machine epsilon are still edges
+    from .relprops import map_operand
+    scaled = []
+    for c in cases:
+        if c.meta.get('pair', 0) % 4 == 0 and c.family not in ('ulp', 'fan'):
+            k = [-60, -52, 40, -30][(c.meta.get('pair', 0) // 4) % 4]
+            f = 2.0 ** k
+            scaled.append(bc.Case(c.cid + 'z', c.family, c.prec, c.op, map_operand(c.lhs, lambda x, y: (x * f, y * f)),
+                                  map_operand(c.rhs, lambda x, y: (x * f, y * f)), dict(c.meta, scale_log2=k)))
+    cases = cases + scaled
     lines, meta = [], []
     for c in cases:
-        if c.op == 'U':
-            lines.append(fmt.stage_line('fillq', c.cid + 'q', 64, 'r', c.op, c.lhs, c.rhs))
-            meta.append((c, 'q'))
+        lines.append(fmt.stage_line('fillq', c.cid + 'q', 64, 'r', c.op, c.lhs, c.rhs))
+        meta.append((c, 'q'))
         lines.append(fmt.stage_line('subdiv', c.cid + 's', 64, 'r', c.op, c.lhs, c.rhs))
         meta.append((c, 's'))
     impl = engine.run_lines(engine.impl_bin('r'), lines, timeout=600)
@@ -175,7 +185,7 @@ def run(rep, tier, seed):
             if len(evs) > 2 * len(input_edges(c.lhs) + input_edges(c.rhs)):
                 nontriv.add(lines[i])
         if bad:
-            if c.family in ('lat', 'gp') and impl[i] == model[i] and gen.degenerate_arrangement(c.lhs, c.rhs):
+            if c.family in ('lat', 'gp', 'straddle') and impl[i] == model[i] and gen.degenerate_arrangement(c.lhs, c.rhs):
                 known += 1
                 rep.known_finding('N1', '%s %s: %s' % (c.cid, c.family, bad[0][:150]))
             else:
